@@ -800,11 +800,17 @@ func genCCFB(r *rand.Rand) ([]opJ, []string) {
 func main() {
 	o := cq.ParseFlags()
 	r := o.Rand()
-	ccSet := &cq.Set{
-		Name: "c09cc", Import: "IV.Check.C09Check", CaseType: "cc_case",
-		Checks: []string{"cc_mismatches", "cc_spec_failures"},
+	// the same case type and checkers in several sets, so that the in-Coq evaluation runs in parallel shards
+	const nCC = 6
+	var sets []*cq.Set
+	for i := 0; i < nCC; i++ {
+		sets = append(sets, &cq.Set{
+			Name: fmt.Sprintf("c09cc%d", i), Import: "IV.Check.C09Check", CaseType: "cc_case",
+			Checks: []string{"cc_mismatches", "cc_spec_failures"},
+		})
 	}
 	var fails []cq.ImplFailure
+	ccCount := 0
 	addCC := func(ops []opJ, buckets ...string) {
 		c, p := runCC(ops)
 		if p != "" {
@@ -812,13 +818,15 @@ func main() {
 
 			return
 		}
-		ccSet.Cases = append(ccSet.Cases, c.toCase(buckets...))
+		set := sets[ccCount%nCC]
+		ccCount++
+		set.Cases = append(set.Cases, c.toCase(buckets...))
 	}
-	sets := []*cq.Set{ccSet}
 	if o.Replay != "" {
 		var probe map[string]interface{}
-		switch cq.LoadReplay(o.Replay, &probe) {
-		case "c09cc", "impl-panic":
+		set := cq.LoadReplay(o.Replay, &probe)
+		switch {
+		case strings.HasPrefix(set, "c09cc"), set == "impl-panic":
 			var c ccCase
 			cq.LoadReplay(o.Replay, &c)
 			addCC(c.Ops, "replay")
@@ -829,13 +837,13 @@ func main() {
 	}
 	for _, f := range o.CorpusFiles() {
 		var probe map[string]interface{}
-		if cq.LoadReplay(f, &probe) == "c09cc" {
+		if strings.HasPrefix(cq.LoadReplay(f, &probe), "c09cc") {
 			var c ccCase
 			cq.LoadReplay(f, &c)
 			addCC(c.Ops, "corpus")
 		}
 	}
-	ncc := o.Scale(700, 30000)
+	ncc := o.Scale(600, 30000)
 	for i := 0; i < ncc; i++ {
 		if i%3 == 2 {
 			ops, tags := genCCFB(r)
